@@ -464,7 +464,7 @@ PROPS = {
     ),
     'C03': dict(
         explanation='theorems: the where-clause every builder threads through its WhereClauseBuilder equals the documented walk; with no bound(..) anywhere it is the declared predicates plus exactly the used field types that mention a parameter (plan_default_exact, spelled out for every builder in Props/C03.lean: all fields for Clone / Copy / operators, shown or transparent fields for Debug, fields without explicit value of the default variant for Default, compared fields not using key / by for the comparison traits, none for Deref). L1 compares every where-clause token for token; the well-typed grammar of C20 has rustc confirm that the generated impls type-check.',
-        theorems=[('DeriveExModel.Props.C03Dedup', ['DX.dedupTys_sound', 'DX.dedupTys_complete', 'DX.dedupTys_nodup', 'DX.dedupTys_id']), (CMP + 'C03', ['DX.plan_default_exact', 'DX.no_bound_without_use', 'DX.bound_for_every_use',
+        theorems=[('DeriveExModel.Props.C03Dedup', ['DX.dedupTys_sound', 'DX.dedupTys_complete', 'DX.dedupTys_nodup', 'DX.dedupTys_id', 'DX.items_cover_types', 'DX.items_sound']), (CMP + 'C03', ['DX.plan_default_exact', 'DX.no_bound_without_use', 'DX.bound_for_every_use',
                                  'DX.clone_struct_default', 'DX.copy_struct_default', 'DX.clone_enum_default', 'DX.copy_enum_default',
                                  'DX.ops_default', 'DX.default_struct_default', 'DX.default_struct_value_default',
                                  'DX.default_enum_default', 'DX.debug_struct_default', 'DX.debug_enum_default',
